@@ -70,3 +70,8 @@ RC.append(("np.sum(x, axis=k, dtype=int): the result is integer-valued (piecewis
 
 RC.append(("np.split with unsorted (overlapping) indices, e.g. np.split(x, [3, 1]): the VJP concatenates the pieces' cotangents and returns a gradient that is longer than the argument",
            [("C15", "concatenate", "rev", "silently-wrong-with-option", "case_id:split_with_unsorted_indices")]))
+
+RC.append(("rfftn / irfftn with a repeated axis (see the C09 entry: accepted, unlike the complex transforms, and differentiated with factors for distinct axes): the wrong first-order rule "
+           "also gives a wrong Gauss-Newton Hessian of the realified transform",
+           [("C07", "rfftn", "*", "gauss-newton-hessian-wrong", "axes:repeated,complexified:output-realified"),
+            ("C07", "irfftn", "*", "gauss-newton-hessian-wrong", "axes:repeated")]))
